@@ -43,3 +43,26 @@ package schedulers
 //@   at CreateMoveLeaderOperator 1 assert [moved-leader-keeps-its-role] arg2 == bs.cur.region && arg4 == bs.cur.srcStoreID && arg5 != nil && arg5.StoreId == bs.cur.dstStoreID && arg5.Role == callres("GetStorePeer", 1).Role
 //@   at CreateTransferLeaderOperator 1 assert [leader-only-to-a-voter-store] arg2 == bs.cur.region && arg3 == bs.cur.srcStoreID && arg4 == bs.cur.dstStoreID && callres("GetStoreVoter", 1) != nil
 //@   modifies *
+
+// shuffle-region: the scheduler's own filter list starts with the store-state filter for moving regions
+// (newShuffleRegionScheduler), and scheduleAddPeer applies that list as TARGET filters: the new peer goes to a store of
+// the cluster view that is Up and holds no peer of the region, with the role of the peer it replaces.
+//@ opaque NewBaseScheduler, (*shuffleRegionScheduler).GetName, (*BaseScheduler).GetName
+//@ pure moveUp(f filter.Filter) = typeisptr(f, filter.StoreStateFilter) && asptr(f, filter.StoreStateFilter) != nil && asptr(f, filter.StoreStateFilter).MoveRegion && !asptr(f, filter.StoreStateFilter).ScatterRegion
+//@ pure shuffleOK(s *shuffleRegionScheduler) = allocated(s.filters) && len(s.filters) > 0 && moveUp(s.filters[0])
+//@ func newShuffleRegionScheduler
+//@   props C11
+//@   ensures [carries-the-move-state-filter] typeisptr(result, shuffleRegionScheduler) && asptr(result, shuffleRegionScheduler) != nil && shuffleOK(asptr(result, shuffleRegionScheduler))
+//@   modifies nothing
+//@ func (*shuffleRegionScheduler).scheduleAddPeer
+//@   props C11
+//@   dispatch Filter.Target passT
+//@   dispatch Filter.Target passT for *filter.StoreStateFilter
+//@   requires s != nil && cluster != nil && region != nil && region.meta != nil && shuffleOK(s) && (forall k :: {region.meta.Peers[k]} 0 <= k && k < len(region.meta.Peers) ==> allocated(region.meta.Peers[k]))
+//@   at FilterTarget 1 after assert [only-up-stores-pass-the-schedulers-filters] forall i :: {r0.Stores[i]} 0 <= i && i < len(r0.Stores) ==> r0.Stores[i] != nil && ufb("clusterStore", cluster, r0.Stores[i]) && storeStateOf(r0.Stores[i]) == 0
+//@   at FilterTarget 2 after assert [and-only-stores-without-a-peer] forall i :: {r0.Stores[i]} 0 <= i && i < len(r0.Stores) ==> r0.Stores[i] != nil && ufb("clusterStore", cluster, r0.Stores[i]) && storeStateOf(r0.Stores[i]) == 0 && !hasPeerOn(region, storeIdOf(r0.Stores[i]))
+//@   at RandomPick 1 after assert [picked-one-of-them] r0 != nil ==> ufb("clusterStore", cluster, r0) && storeStateOf(r0) == 0 && !hasPeerOn(region, storeIdOf(r0))
+//@   ensures [new-peer-on-a-store-without-a-peer] result != nil ==> !hasPeerOn(region, result.StoreId)
+//@   ensures [new-peer-on-an-up-store] result != nil ==> (exists st *core.StoreInfo :: ufb("clusterStore", cluster, st) && storeIdOf(st) == result.StoreId && storeStateOf(st) == 0)
+//@   ensures [keeps-the-role] result != nil ==> result.Role == ite(oldPeer == nil, 0, oldPeer.Role)
+//@   modifies ghost evres
